@@ -56,6 +56,39 @@ var jsonPairs = []codecPair{
 		func(b []byte, like any) (any, error) { return callUnmarshal(like, "UnmarshalJSON", b) }},
 }
 
+// decoded values must stay what they were when later, unrelated inputs are decoded (a pooled parser or a shared scratch
+// buffer aliased by a decoded value shows up here, not in the comparison right after the decode)
+type keptValue struct {
+	v     any
+	hash  uint64
+	label string
+	codec string
+}
+
+var keptRing [8]keptValue
+var keptN int
+
+func keepDecoded(c *Ctx, codec string, mode vmodel.Mode, v any, label string) {
+	// first re-check everything kept so far
+	for i := range keptRing {
+		k := &keptRing[i]
+		if k.v == nil {
+			continue
+		}
+		if h := vmodel.SnapshotHash(k.v); h != k.hash {
+			c.Fail(k.codec+"|decoded-value-changed-later", fmt.Sprintf("a value decoded earlier (%s) changed after later, unrelated decodes (last: %s)", k.label, label),
+				map[string]any{"earlier": k.label, "later": label, "now": clipS(vmodel.Canon(k.v, mode).String(), 300)})
+			k.v = nil
+		}
+	}
+	if v == nil {
+		return
+	}
+	c.Count("kept-values-rechecked", 1)
+	keptRing[keptN%len(keptRing)] = keptValue{v, vmodel.SnapshotHash(v), label, codec}
+	keptN++
+}
+
 // roundTrip runs every pair on x and reports every difference against the canonical tree of x.
 func roundTrip(c *Ctx, codec string, mode vmodel.Mode, pairs []codecPair, x any, label string, onBytes func(pair string, x any, b []byte)) {
 	want := vmodel.Canon(x, mode)
@@ -95,6 +128,7 @@ func roundTrip(c *Ctx, codec string, mode vmodel.Mode, pairs []codecPair, x any,
 		}
 		gotN := vmodel.Canon(got, mode)
 		c.Count("roundtrips", 1)
+		keepDecoded(c, codec, mode, got, label)
 		for _, d := range vmodel.Diff(want, gotN) {
 			c.Fail(codec+"|"+d.Sig(), fmt.Sprintf("%s round trip: %s %s (want %s, got %s)", codec, d.Path, d.Kind, d.WantShape, d.GotShape),
 				map[string]any{"pair": p.name, "case": label, "path": d.Path, "want": d.Want, "got": d.Got, "bytes": clipB(b)})
